@@ -90,6 +90,12 @@ def build(pid, log):
     log["build"] = {"rc": rc, "wall_s": round(time.time() - t0, 2), "errors": errs[:50]}
     if rc != 0 and not errs:
         log["build"]["tail"] = out[-3000:]
+    # the executable model driver (Main.lean, run with `lean --run`) needs the compiled form of everything it imports; build those
+    # too, so that a check works from a checkout without build outputs whatever was run before it
+    drv = re.findall(r"^import (HmfVerif\.[\w.]+)", open(os.path.join(LEAN, "Main.lean")).read(), re.M)
+    t1 = time.time()
+    rcd, outd = sh(["lake", "build"] + drv, cwd=LEAN, timeout=3000)
+    log["build_driver"] = {"rc": rcd, "modules": len(drv), "wall_s": round(time.time() - t1, 2), "tail": outd[-600:] if rcd else ""}
     return rc, errs
 
 
